@@ -47,6 +47,31 @@ CLAIMS = {
         "note": "Not decided: confluence of the interval worklists under different set orders (assumed for the set-in/set-out worklists, listed in the evidence). The rules are sufficient conditions for history independence given Python semantics. Trusts ast.",
         "technique": "ownership / effect analysis and iteration-order taint over the AST (who-may-write, mutation sites, set-typed flow)",
     },
+    "C10": {
+        "text": "Structural necessary conditions plus shape-level agreement: every variable-width and fixed-width suffix shape the library's own quantifier emitters can produce (obtained by abstract interpretation of the emitters) is fed to the 4 look-behind and 2 look-ahead builders - refused iff variable, Empty handled first, look-aheads never refuse; the four guard constants parse to the same regex; on a catalogue of operand shapes named by the property the verdict is compared with CPython's own width computation.",
+        "note": "The property's core - the width of arbitrary run-time operand text - is NOT decided (the guard is a text search); the check decides emitter-produced shapes and a fixed catalogue, so coverage is not exhaustive. Two defect classes found on the catalogue are listed as known findings. Trusts ast, re._parser (getwidth), /verif/sa.",
+        "technique": "abstract interpretation of emitters and guards (must-raise / must-not-raise) + regex-constant AST equality + re._parser width oracle on operand shapes",
+    },
+    "C16": {
+        "text": "Composition decided exactly relative to C15/C17: the five Decimal constructors are walked in meta mode (core DSL calls replaced by documented denotations, Integer family and Numeral kept as argument-recording atoms) for start in {0,1,7} x sign x extensible x fraction bounds; skeleton, variant table, same-named argument binding, NOINT iff start == 0, enumerated sign alphabets, digit/sign guards, validation.",
+        "note": "The integer part's own semantics (C15) is not decided; Numeral's is C17's. Trusts ast, /verif/sa, documented meaning of core operators.",
+        "technique": "finite-language / structural evaluation of DSL-building code (abstract interpretation with a regular-expression term domain)",
+    },
+    "C17": {
+        "text": "All 15 bases are evaluated: the digit expression (unrolled union loop) denotes exactly the first `base` hex digits in both cases; length bounds arrive as the repetition range for a complete set of order types; Word / WordContains / WordStartsWith / WordEndsWith skeletons for affix lists of length 1-3 and str input, word boundaries iff not extensible, is_global forwarded, affixes as literals; validation rows.",
+        "note": "'maximal run' and 'standalone' follow from re's \\b/\\w semantics (trusted). Core operators denote their documented meaning (decided by C01-C10). Trusts ast, /verif/sa.",
+        "technique": "finite-language / structural evaluation of DSL-building code over the bounded configuration space",
+    },
+    "C18": {
+        "text": "Exact for the clause it decides: IPv4's term flattens to O.O.O.O and each octet's finite language is enumerated and equals {0..255}; IPv6's constructor (loop unrolled, Numeral abstracted to one symbol H with its arguments checked) denotes a finite language over {H, ':'} that is enumerated completely and compared in both directions with the RFC 4291 shapes; non-extensible guards.",
+        "note": "Relative to the documented meaning of the core operators and to C17 for H. Behaviour of the per-group word boundaries inside longer text is not decided. Trusts ast, /verif/sa.",
+        "technique": "finite-language enumeration of the constructors' denotation (abstract interpretation with a regular-expression term domain)",
+    },
+    "C19": {
+        "text": "Exact: the format list equals the 48 documented formats; for each format the term splits at its own separator into three parts whose finite languages (enumerated, look-behinds honoured: 9 / 31 / 12 / 100 / 10^4 strings) equal the documented token languages in the format's order; selection semantics (None/str/list/invalid) and word-boundary enclosure on representatives of each kind.",
+        "note": "Relative to the documented meaning of the core operators. Search preference among overlapping alternatives is re's rule. Trusts ast, /verif/sa.",
+        "technique": "finite-language enumeration of the constructors' denotation + table exhaustiveness (every format token has a handler)",
+    },
 }
 
 NOT_APPLICABLE = {
